@@ -73,7 +73,7 @@ Print Assumptions C05_src_controlled_poll.
 Theorem C05_src_block_poll : forall m tl pos off blimit ro,
   in_i32 (ro - off) = true -> in_i64 (pos + (ro - off)) = true ->
   src_img_block_term_offset m (tl - 1) pos = Ok (term_offset_of_pos tl pos) /\
-  src_img_block_limit_offset m tl off blimit = (s <- add32 m off blimit ;; Ok (Z.min s tl)) /\
+  src_img_block_limit_offset m tl off blimit = Ok (Z.min (sat_add32 off blimit) tl) /\
   src_img_block_length m ro off = Ok (ro - off) /\
   src_img_block_nonempty m ro off = Ok (ro >? off) /\
   src_img_block_new_position m pos (ro - off) = Ok (pos + (ro - off)).
